@@ -79,6 +79,11 @@ struct FnSrc {
     sig: Signature,
     block: Block,
     impl_ty: Option<String>,
+    cfg: Option<String>, // a #[cfg] on the function or on its impl block
+}
+
+fn cfg_of(attrs: &[Attribute]) -> Option<String> {
+    attrs.iter().map(|a| ts(a).replace(' ', "")).find(|s| s.starts_with("#[cfg"))
 }
 
 fn collect(file: &File, out: &mut HashMap<String, FnSrc>) {
@@ -88,7 +93,7 @@ fn collect(file: &File, out: &mut HashMap<String, FnSrc>) {
                 if has_cfg_verif(&f.attrs) {
                     continue;
                 }
-                out.insert(f.sig.ident.to_string(), FnSrc { sig: f.sig.clone(), block: (*f.block).clone(), impl_ty: None });
+                out.insert(f.sig.ident.to_string(), FnSrc { sig: f.sig.clone(), block: (*f.block).clone(), impl_ty: None, cfg: cfg_of(&f.attrs) });
             }
             Item::Macro(m) if m.ident.as_ref().map_or(false, |i| i == "new_iterator") => {
                 // the arms of new_iterator!: the one implementing DoubleEndedIterator is DeArm, the other
@@ -109,9 +114,9 @@ fn collect(file: &File, out: &mut HashMap<String, FnSrc>) {
                                 if let ImplItem::Fn(f) = ii {
                                     let key = format!("{}::{}", tyname, f.sig.ident);
                                     if out.contains_key(&key) {
-                                        out.insert(format!("{}#dup", key), FnSrc { sig: f.sig.clone(), block: f.block.clone(), impl_ty: Some(tyname.to_string()) });
+                                        out.insert(format!("{}#dup", key), FnSrc { sig: f.sig.clone(), block: f.block.clone(), impl_ty: Some(tyname.to_string()), cfg: cfg_of(&f.attrs) });
                                     }
-                                    out.insert(key, FnSrc { sig: f.sig.clone(), block: f.block.clone(), impl_ty: Some(tyname.to_string()) });
+                                    out.insert(key, FnSrc { sig: f.sig.clone(), block: f.block.clone(), impl_ty: Some(tyname.to_string()), cfg: cfg_of(&f.attrs) });
                                 }
                             }
                         }
@@ -140,9 +145,9 @@ fn collect(file: &File, out: &mut HashMap<String, FnSrc>) {
                         let key = format!("{}::{}", tyname, f.sig.ident);
                         if out.contains_key(&key) {
                             // two definitions of one function (e.g. under different cfgs): not handled
-                            out.insert(format!("{}#dup", key), FnSrc { sig: f.sig.clone(), block: f.block.clone(), impl_ty: Some(tyname.clone()) });
+                            out.insert(format!("{}#dup", key), FnSrc { sig: f.sig.clone(), block: f.block.clone(), impl_ty: Some(tyname.clone()), cfg: cfg_of(&f.attrs).or_else(|| cfg_of(&im.attrs)) });
                         }
-                        out.insert(key, FnSrc { sig: f.sig.clone(), block: f.block.clone(), impl_ty: Some(tyname.clone()) });
+                        out.insert(key, FnSrc { sig: f.sig.clone(), block: f.block.clone(), impl_ty: Some(tyname.clone()), cfg: cfg_of(&f.attrs).or_else(|| cfg_of(&im.attrs)) });
                     }
                 }
             }
@@ -196,7 +201,7 @@ fn closure_src(e: &Expr, ret: &str, first_param_ty: &str) -> Option<FnSrc> {
     let b = &c.body;
     let src = format!("fn f({}) -> {} {{ {} }}", params.join(", "), ret, quote::quote!(#b));
     let f: ItemFn = syn::parse_str(&src).ok()?;
-    Some(FnSrc { sig: f.sig.clone(), block: (*f.block).clone(), impl_ty: None })
+    Some(FnSrc { sig: f.sig.clone(), block: (*f.block).clone(), impl_ty: None, cfg: cfg_of(&f.attrs) })
 }
 
 fn collect_invocations(file: &File, out: &mut HashMap<String, FnSrc>) {
@@ -319,7 +324,26 @@ fn mk_sig(key: &str, f: &FnSrc) -> Sig {
     Sig { coq: format!("g_{}", key.replace("::", "_")), self_kind, params, ret, pure_fn: false }
 }
 
+/// any `#[cfg(..)]` / `#[cfg_attr(..)]` inside a translated function means the function is not ONE function
+struct CfgInside(Option<String>);
+impl<'ast> syn::visit::Visit<'ast> for CfgInside {
+    fn visit_attribute(&mut self, a: &'ast Attribute) {
+        let s = ts(a).replace(' ', "");
+        if s.starts_with("#[cfg") && self.0.is_none() {
+            self.0 = Some(s);
+        }
+    }
+}
+
 fn translate(key: &str, f: &FnSrc, sigs: &HashMap<String, Sig>) -> R<(String, bool)> {
+    let mut ci = CfgInside(None);
+    syn::visit::Visit::visit_block(&mut ci, &f.block);
+    if let Some(a) = ci.0 {
+        return Err(format!("conditional compilation inside the function: {}", a));
+    }
+    if let Some(a) = &f.cfg {
+        return Err(format!("the function itself is conditionally compiled: {}", a));
+    }
     let mut cx = Cx::new(sigs.clone(), key);
     let sig = cx.cur.clone();
     let mut binders = vec!["(dbg : bool)".to_string()];
